@@ -139,6 +139,15 @@ func (s *server) processPushlog(
 	if err != nil {
 		return nil, err
 	}
+	// The block is what gets verified and synced, the CID is what gets merged: they have to be
+	// one and the same commit.
+	blockLink, err := block.GenerateLink()
+	if err != nil {
+		return nil, err
+	}
+	if !blockLink.Cid.Equals(headCID) {
+		return nil, ErrPushLogCIDMismatch
+	}
 
 	// No need to check access if the message is for replication as the node sending
 	// will have done so deliberately.
